@@ -8,6 +8,9 @@ props = [json.loads(l) for l in open(os.path.join(HERE, "properties.jsonl"))]
 TRUST = "TLC 1.8 and the CommunityModules Json reader; the harness projection/wrappers (harness/project.py, record.py); CPython as executor of the library."
 
 CHECKS = {
+    "C09": dict(cat="model_checking", ref="DESIGN 8/C09",
+                text="TLC (ByteCFG.tla) enumerates every well-formed abstract instruction stream of <=4 (thorough: <=5) instructions and checks the transcription of FlowInfo against the contract (Partition, EntryOnlyAtFirst, LeaveOnlyAfterLast, SuccExact); each stream is instantiated with every conditional / unconditional / returning opcode the interpreter defines and fed to the real FlowInfo; every eligible function of ~100 std-lib modules is built by the real code under Python 3.12 and 3.11 and judged by TLC against the same contract with instruction classes from the interpreter's own opcode metadata.",
+                technique="TLC small-scope model checking of ByteCFG.tla plus trace validation of (instruction stream, built blocks) pairs recorded from the implementation"),
     "C18": dict(cat="model_checking", ref="DESIGN 8/C18",
                 text="TLC model-checks the generator state machine (Names.tla) for Fresh, NoClobber and the inductive invariant Covered over all interleavings of requests, uses, removals and reloads from every small input (names inside the generator namespace included); every name the real generator hands out inside real restructure behaviours - plain, with a to_dict/from_dict round trip between stages, and on inputs named inside the generator's namespace - is validated by TLC step by step (NamesTrace.tla).",
                 technique="TLC model checking of Names.tla plus trace validation (NamesTrace.tla) of generator calls recorded from the implementation"),
